@@ -392,12 +392,13 @@ def replay_cache_race(strat, b0, b2, maxsize, mi, ti, v, p1, n, p2):
   return _cache_race_verdict(out) is None
 
 
-_RQ9 = [('s%d_%s' % (i, K.STRATEGY_NAMES[i] or 'none'), 'strat == %d' % i) for i in (0, 3, 6)]
+_RQ9 = ([('s%d_%s_other' % (i, K.STRATEGY_NAMES[i] or 'none'), 'strat == %d and mi == 2 and ti == 0' % i) for i in (0, 3, 6)] +
+        [('s%d_%s_same' % (i, K.STRATEGY_NAMES[i] or 'none'), 'strat == %d and mi == 0 and ti == 2 and n >= 8' % i) for i in (0, 3, 6)])
 _RS9 = [('s%d_%s_m%d' % (i, n or 'none', m), 'strat == %d and mi == %d' % (i, m)) for i, n in enumerate(K.STRATEGY_NAMES) for m in range(3)]
 HARNESSES.append(
-  H('C09_cache_race', quick=dict(timeout=280, shards=_RQ9, extra_pre=['p2 == 0', 'maxsize == 1', 'mi == 2 and ti == 0', 'b0 and not b2']),
+  H('C09_cache_race', quick=dict(timeout=280, shards=_RQ9, extra_pre=['p2 == 0', 'maxsize == 1', 'b0 and not b2']),
     thorough=dict(timeout=900, shards=_RS9, extra_pre=['p2 in (0, 4)', 'maxsize <= 2', 'ti != 1']),
-    covers=['interleaved'], replay='replay_cache_race', twin_pre=['strat == 0'],
+    covers=['interleaved'], replay='replay_cache_race', twin_pre=['strat == 0 and mi == 2'],
     encodes=['carbon.cache:_MetricCache.store (cacheFull under the lock)', 'carbon.cache:_MetricCache.pop', 'carbon.cache:_MetricCache._check_available_space',
              'carbon.events cacheFull/cacheSpaceAvailable -> pause/resume chain'],
     assumptions=_ASSUME + ['schedules: the writer (drains until the cache is empty) runs p1 statements, the receiver (one store that reaches MAX_CACHE_SIZE) runs n statements or until blocked, '
